@@ -230,6 +230,67 @@ def run(ctx, rep):
             else:
                 rep.violated(key, "the text written for %s contains everything its parser reads (%s)" % (ty, f),
                              construct=loc_of(wb), why="Display for %s never reads self.%s" % (ty, f))
+    # Y5 automatically completed components re-normalise to themselves (decided by the C05 pack: P3 formula,
+    # same-system sums, skip-when-zero => P4 by lemma L2); re-stated here because C18 quantifies over saved files
+    from . import c05
+    from .common import Report
+    sub = Report("C05")
+    c05.run(ctx, sub)
+    idem = [o for o in sub.obligations if o.key.endswith("/idempotent")]
+    if len(idem) < 2:
+        rep.violated("C18/Y5/anchor", "completion of ambient and solar production is analysable", why="%d completion families" % len(idem))
+    for o in idem:
+        k = "C18/Y5/" + o.key.split("/")[2]
+        if o.status == "discharged":
+            rep.discharged(k, "a saved file whose %s production was completed automatically is not completed again when read back" % o.key.split("/")[2],
+                           derivation=o.derivation)
+        else:
+            rep.violated(k, "automatically completed components re-normalise to themselves", construct=o.construct, why=o.why)
+    # Y6 the one field the text format does not carry, EAux.service, is re-derived on reading: that is only a
+    # round trip if the re-derivation treats re-read auxiliaries like declared ones (C06/A0: every Aux of the
+    # system takes part whatever its comment, values or service)
+    from . import c06
+    sub6 = Report("C06")
+    c06.run(ctx, sub6)
+    a0 = [o for o in sub6.obligations if o.key.startswith("C06/A0/")]
+    if not a0:
+        rep.violated("C18/Y6/anchor", "the reassignment of auxiliary energy is analysable", why="no C06/A0 obligation")
+    for o in a0:
+        if o.status == "discharged":
+            rep.discharged("C18/Y6/aux-service", "auxiliaries read back from a saved file are reassigned like declared ones (service re-derived, comment ignored)")
+        else:
+            rep.violated("C18/Y6/aux-service", "the service of saved auxiliary components is re-derived when the file is read back",
+                         construct=o.construct, why=o.why)
+    # Y4 what --oc saves is what was evaluated: the effective k_exp / area are written to the metadata without a
+    # precision cut and on every path, and the value written by --oc is the evaluated components (C19/Q3)
+    from . import c19
+    sub19 = Report("C19")
+    c19.run(ctx, sub19)
+    q3 = [o for o in sub19.obligations if o.key.startswith("C19/Q3")]
+    if len(q3) < 5:
+        rep.violated("C18/Y4/anchor", "the command-line tool's saving of components is analysable", why="%d C19/Q3 obligations" % len(q3))
+    for o in q3:
+        k = "C18/Y4/" + "/".join(o.key.split("/")[2:])
+        if o.status == "discharged":
+            rep.discharged(k, "saved components reproduce the evaluation: " + o.clause, nontrivial=False)
+        else:
+            rep.violated(k, "a building evaluated from the files saved with --oc gives the same results as the original evaluation",
+                         construct=o.construct, why=o.why)
+    # Y7 the factor file saved by --of (simplified for the building) can be read back and prepared again (C08/S4)
+    from . import c08
+    sub8 = Report("C08")
+    c08.run(ctx, sub8)
+    s4 = [o for o in sub8.obligations if o.key.startswith("C08/S4/")]
+    if len(s4) < 12:
+        rep.violated("C18/Y7/anchor", "simplification followed by preparation is analysable", why="%d C08/S4 obligations" % len(s4))
+    bad8 = [o for o in s4 if o.status != "discharged"]
+    if bad8:
+        for o in bad8[:3]:
+            rep.violated("C18/Y7/" + o.key.split("/")[2], "the factors saved with --of can be read back for every building",
+                         construct=o.construct, why=o.why)
+    else:
+        rep.discharged("C18/Y7", "the simplified factor set saved by --of is accepted again by the reader's preparation, for every single-carrier building",
+                       derivation="%d cases (C08/S4)" % len(s4))
     rep.analysed = {"record_fields": n_cells, "enum_variants": n_enum}
     rep.floor("record-fields", n_cells, 25)
     rep.floor("enum-variants", n_enum, 35)
